@@ -730,22 +730,25 @@ structure Prolog where
   rest : Option (List Char)              -- text from the root element's `<` on, if reached
   deriving Repr
 
+/-- the DOCTYPE declaration after its name and optional external identifier: `S?`, then the
+internal subset in brackets and `S?`, or nothing; then `>` -/
+def doctypeTail (ext : Bool) (s2 : List Char) : (Bool × List Decl) × Option (List Char) :=
+  match skipWs s2 with
+  | '[' :: r =>
+    let dr := intSubset (r.length + 1) r [] true
+    match dr.2 with
+    | none => ((ext, dr.1), none)
+    | some r' => ((ext, dr.1), stripPrefix ['>'] (skipWs r'))
+  | '>' :: r => ((ext, []), some r)
+  | _ => ((ext, []), none)
+
 /-- `<!DOCTYPE` already consumed -/
 def doctypeDecl (s : List Char) : (Bool × List Decl) × Option (List Char) :=
-  let (name, s1) := takeName (skipWs s)
-  if name.isEmpty then ((false, []), none) else
-  match externalId s1 with
+  let nr := takeName (skipWs s)
+  if nr.1.isEmpty then ((false, []), none) else
+  match externalId nr.2 with
   | none => ((false, []), none)
-  | some (ext, s2) =>
-    let s3 := skipWs s2
-    match s3 with
-    | '[' :: r =>
-      let (decls, rest) := intSubset (r.length + 1) r [] true
-      match rest with
-      | none => ((ext, decls), none)
-      | some r' => ((ext, decls), stripPrefix ['>'] (skipWs r'))
-    | '>' :: r => ((ext, []), some r)
-    | _ => ((ext, []), none)
+  | some (ext, s2) => doctypeTail ext s2
 
 /-- Misc* (doctypedecl Misc*)? up to the root element -/
 def misc : Nat → List Char → Nat → Option (Bool × List Decl) → Bool → Bool → Prolog
